@@ -3,6 +3,7 @@ import PromProofs.BlockPopulate
 import PromProofs.BlockPopulateSeries
 import PromProofs.BlockPopulateSingle
 import PromProofs.BlockPopulateMulti
+import PromProofs.BlockPopulateConcat
 /-
   C07 — Compaction preserves the union of its inputs.
   Property theorems only; helper lemmas live in PromProofs/BlockPopulate*.lean.
@@ -343,5 +344,118 @@ example :
       subst hc
       simp only [Chunk.ofSamples, List.mem_cons, List.not_mem_nil, or_false] at hx
       rcases hx with rfl | rfl <;> exact Or.inl rfl
+
+/-! ### several sources under the concatenating merger (horizontal compaction) -/
+
+/-- `concatenatingChunkIterator` (transcribed step by step as `concatNext` / `concatDrain`): drained, it
+    hands out every chunk of every input series, in input order — for ANY inputs, in particular when
+    inputs that hold no chunk at all sit first, in the middle, last, or several in a row. -/
+theorem concat_iterator_yields_every_chunk (inputs : List (List Chunk)) :
+    concatIterAll inputs = inputs.flatten := by
+  rw [concatIterAll_eq]; rfl
+
+/-- Inputs without chunks are irrelevant wherever they sit: removing them does not change what the
+    concatenating iterator yields (so no input FOLLOWING an empty one can be lost). -/
+theorem concat_iterator_ignores_empty_inputs (inputs : List (List Chunk)) :
+    concatIterAll inputs = concatIterAll (inputs.filter fun cs => !cs.isEmpty) := by
+  rw [concatIterAll_eq, concatIterAll_eq]
+  unfold concatAll
+  induction inputs with
+  | nil => rfl
+  | cons x r ih =>
+    cases x with
+    | nil => simpa using ih
+    | cons c cs => simp [List.filter_cons, ih]
+
+/-- The headline clause for ANY number of source blocks under the CONCATENATING merger, whenever the
+    population succeeds (the index writer accepted the concatenated chunks as time-ordered; an unsorted
+    concatenation is an error, `concat_merger_unsorted_witness`): per label set the timestamps written are the
+    sorted de-duplicated union of the sources' visible timestamps, every written sample IS a visible sample
+    of a source (literally: the concatenating merger never decodes), every visible sample of every source is
+    written — none of the inputs is dropped, whichever of them contribute no chunk —, and a label set is
+    written iff some source has a visible sample for it. -/
+theorem populate_samples_concat (blocks : List Block) (mint maxt : Int) (o : Output)
+    (hb : ∀ b ∈ blocks, (∀ s ∈ b.series, SeriesWF s ∧ s.chunks.Pairwise (fun a b => a.maxt < b.mint)) ∧
+      Asc (b.series.map (·.labels)))
+    (hr : RangeOK mint maxt) (h : populate .concat blocks mint maxt = .ok o) (l : Labels) :
+    let src := (blocks.flatMap fun b => b.series.filter fun s => s.labels == l).map (visible mint maxt)
+    let out := (o.series.filter fun cs => cs.1 == l).flatMap csSamples
+    out.map (·.t) = unionTs src ∧ (∀ x ∈ out, ∃ xs ∈ src, x ∈ xs) ∧ (∀ xs ∈ src, ∀ x ∈ xs, x ∈ out) ∧
+    ((o.series.any fun cs => cs.1 == l) = src.any fun xs => !xs.isEmpty) := by
+  intro src out
+  obtain ⟨p1, p2, p4⟩ := populate_concat blocks mint maxt o
+    (fun b hbm => ⟨fun s hs => ⟨((hb b hbm).1 s hs).1, ((hb b hbm).1 s hs).2⟩, (hb b hbm).2⟩) hr.1 hr.2 h l
+  have hmem : ∀ x, x ∈ out ↔ ∃ xs ∈ src, x ∈ xs := by
+    intro x
+    rw [show (x ∈ out) = (x ∈ (o.series.filter fun cs => cs.1 == l).flatMap csSamples) from rfl, p2 x]
+    constructor
+    · rintro ⟨b, hbm, s, hs, hl, hx⟩
+      exact ⟨_, (mem_src blocks mint maxt l _).2 ⟨b, hbm, s, hs, hl, rfl⟩, hx⟩
+    · rintro ⟨xs, hxs, hx⟩
+      obtain ⟨b, hbm, s, hs, hl, rfl⟩ := (mem_src blocks mint maxt l xs).1 hxs
+      exact ⟨b, hbm, s, hs, hl, hx⟩
+  refine ⟨?_, fun x hx => (hmem x).1 hx, fun xs hxs x hx => (hmem x).2 ⟨xs, hxs, hx⟩, ?_⟩
+  · apply strict_ext
+    · unfold SortedL at p1
+      rw [List.pairwise_map]; exact p1
+    · apply eraseDups_strict
+      have := List.pairwise_mergeSort (le := fun (a b : Int) => decide (a ≤ b))
+        (by intro a b c; simp; omega) (by intro a b; simp; omega) (src.flatten.map (·.t))
+      simpa using this
+    · intro t
+      unfold unionTs
+      rw [List.mem_eraseDups, List.mem_mergeSort]
+      constructor
+      · intro ht
+        obtain ⟨x, hx, rfl⟩ := List.mem_map.1 ht
+        obtain ⟨xs, hxs, hxx⟩ := (hmem x).1 hx
+        exact List.mem_map.2 ⟨x, List.mem_flatten.2 ⟨xs, hxs, hxx⟩, rfl⟩
+      · intro ht
+        obtain ⟨y, hy, rfl⟩ := List.mem_map.1 ht
+        obtain ⟨xs, hxs, hyx⟩ := List.mem_flatten.1 hy
+        exact List.mem_map.2 ⟨y, (hmem y).2 ⟨xs, hxs, hyx⟩, rfl⟩
+  · rw [Bool.eq_iff_iff, p4, List.any_eq_true]
+    constructor
+    · rintro ⟨b, hbm, s, hs, hl, hv⟩
+      refine ⟨_, (mem_src blocks mint maxt l _).2 ⟨b, hbm, s, hs, hl, rfl⟩, ?_⟩
+      cases hvs : visible mint maxt s with
+      | nil => exact (hv hvs).elim
+      | cons a r => rfl
+    · rintro ⟨xs, hxs, hne⟩
+      obtain ⟨b, hbm, s, hs, hl, rfl⟩ := (mem_src blocks mint maxt l xs).1 hxs
+      refine ⟨b, hbm, s, hs, hl, ?_⟩
+      intro h0; rw [h0] at hne; simp at hne
+
+/-- the hypotheses of `populate_samples_concat` are satisfiable and the run is not trivial: three adjacent
+    blocks share `{a="b"}`; in the third block both samples are deleted by two tombstones neither of which
+    holds both ends of the chunk, so that block still yields the series, WITHOUT chunks; the merge set hands
+    the three per-block series to the merge function in heap order block 1, block 3, block 2 — the empty
+    input sits between two non-empty ones — and all four samples of blocks 1 and 2 are written. -/
+theorem concat_emptied_middle_input_example :
+    let blocks : List Block :=
+      [⟨0, 100, [⟨[("a", "b")], [Chunk.ofSamples [⟨0, .float, 1⟩, ⟨90, .float, 2⟩]], []⟩]⟩,
+       ⟨100, 200, [⟨[("a", "b")], [Chunk.ofSamples [⟨100, .float, 3⟩, ⟨190, .float, 4⟩]], []⟩]⟩,
+       ⟨200, 300, [⟨[("a", "b")], [Chunk.ofSamples [⟨200, .float, 5⟩, ⟨290, .float, 6⟩]], [⟨200, 240⟩, ⟨250, 290⟩]⟩]⟩]
+    (∀ b ∈ blocks, (∀ s ∈ b.series, SeriesWF s ∧ s.chunks.Pairwise (fun a b => a.maxt < b.mint)) ∧
+      Asc (b.series.map (·.labels))) ∧ RangeOK 0 299 ∧
+    (match blockSets 0 299 blocks with
+     | .ok sets => some ((groupSets sets).1.map fun g => g.map (·.2.length))
+     | .error _ => none) = some [[1, 0, 1]] ∧
+    (match compact .concat blocks with
+     | .block o => some (o.series.map proj, o.stats)
+     | _ => none) =
+      some ([([("a", "b")], [⟨0, .float, 1⟩, ⟨90, .float, 2⟩, ⟨100, .float, 3⟩, ⟨190, .float, 4⟩])], ⟨1, 2, 4, 4, 0⟩) := by
+  refine ⟨?_, by unfold RangeOK; decide, by decide, by decide⟩
+  intro b hb
+  simp only [List.mem_cons, List.not_mem_nil, or_false] at hb
+  rcases hb with rfl | rfl | rfl
+  all_goals
+    refine ⟨?_, by simp [Asc]⟩
+    intro s hs
+    simp only [List.mem_singleton] at hs
+    subst hs
+    refine ⟨⟨by decide, ?_, by decide, by decide, by decide, ?_⟩, by simp⟩
+    · unfold Intervals.AllI64 Intervals.I64; decide
+    · unfold Intervals.I64; decide
 
 end Prom.C07
